@@ -25,6 +25,7 @@ type State struct {
 	epoch   string // non-empty after a havoc-everything: maps first read later get epoch constants
 	unknownWrites bool
 	cands []string // candidate integer terms for ground instantiation of hypotheses
+	epochKeep map[string]bool // heap maps exempt from every havoc-everything so far (callback preserves)
 	lens  []string // lengths of append prefixes seen on the path (offsets for instantiation candidates)
 	loopEntry map[int]*State // heap view at the entry of each loop (by ordinal)
 }
@@ -75,6 +76,7 @@ func (s *State) clone() *State {
 		cands: append([]string(nil), s.cands...),
 		loopEntry: map[int]*State{},
 		lens: append([]string(nil), s.lens...),
+		epochKeep: s.epochKeep,
 	}
 	for k, v := range s.loopEntry {
 		n.loopEntry[k] = v
@@ -96,7 +98,7 @@ func (s *State) clone() *State {
 
 // snapshot copies only the heap/alloc view (for old()).
 func (s *State) snapshot() *State {
-	n := &State{heap: make(map[string]string, len(s.heap)), hsort: s.hsort, alloc: s.alloc, epoch: s.epoch}
+	n := &State{heap: make(map[string]string, len(s.heap)), hsort: s.hsort, alloc: s.alloc, epoch: s.epoch, epochKeep: s.epochKeep}
 	for k, v := range s.heap {
 		n.heap[k] = v
 	}
@@ -189,7 +191,7 @@ func (e *Env) heapGet(s *State, name, sort string) string {
 	if t, ok := s.heap[name]; ok {
 		return t
 	}
-	if s.epoch != "" {
+	if s.epoch != "" && !s.epochKeep[name] {
 		c := e.ctx.declConst(mangle(name)+"!e"+s.epoch, sort)
 		e.typedMapAxiom(name, c)
 		e.ownedAxiom(name, c)
